@@ -349,7 +349,7 @@ func GenCase(t *rapid.T, p *Profile) *Case {
 	return c
 }
 
-var allMethods = []int{0, 0, 1, 1, 2, 2, 2, 3, 4, 5, 5, 6, 9, 10, 11, 12}
+var allMethods = []int{0, 0, 1, 1, 2, 2, 2, 3, 4, 5, 5, 6, 9, 10, 11, 12, 13}
 var hostileMethods = []int{0, 1, 2, 3, 4, 5, 6, 7, 8, 9}
 
 // Profiles by name.
@@ -373,5 +373,5 @@ var Profiles = map[string]*Profile{
 	"addresses": {Name: "addresses", Min: [2]int{1, 3}, Max: [2]int{1, 4}, WM: []int{1, 2}, UdMs: []int64{7, 100}, UdCalls: []int{1}, Strict: 30, Shutdown: true,
 		W: map[string]int{"resolve": 12, "reserr": 4, "state": 6, "pick": 10, "done": 5, "adv": 1, "allready": 3, "decall": 12, "readyrepl": 8, "saturate": 5, "failnew": 1, "refreshcycle": 4}, Methods: []int{0, 0, 2}},
 	"cfg": {Name: "cfg", Wild: true, WM: []int{1}, Fallback: 30, UdMs: []int64{0, 7}, UdCalls: []int{0, 1}, RR: 20, Strict: 30, CfgOps: true, NoFirst: 30,
-		W: map[string]int{"resolve": 5, "state": 8, "pick": 22, "done": 8, "adv": 1, "allready": 5, "bindflow": 8, "decall": 2, "readyrepl": 2, "saturate": 8, "growmax": 4, "fillwm": 2}, Methods: append(append([]int{}, hostileMethods...), 10, 10, 11, 12)},
+		W: map[string]int{"resolve": 5, "state": 8, "pick": 22, "done": 8, "adv": 1, "allready": 5, "bindflow": 8, "decall": 2, "readyrepl": 2, "saturate": 8, "growmax": 4, "fillwm": 2}, Methods: append(append([]int{}, hostileMethods...), 10, 10, 11, 12, 13, 13)},
 }
